@@ -230,7 +230,31 @@ class Driver:
     def ask(self, lines):
         if not lines:
             return []
-        p = subprocess.run([self.path], input='\n'.join(lines) + '\n', capture_output=True, text=True, timeout=3000)
+        # the model is asked in batches under a time limit: when the implementation produced pathological output (names
+        # that grow with every command ...) the model driver may need far longer than the run itself; the lines it did not
+        # answer in time are then simply not compared (the oracle still judges those cases) and the run says so
+        limit = float(os.environ.get('VERIF_DRIVER_BUDGET', 600))
+        out, t0, B = [], time.time(), 2000
+        for k in range(0, len(lines), B):
+            left = limit - (time.time() - t0)
+            chunk = lines[k:k + B]
+            if left <= 1:
+                out.extend([None] * len(chunk))
+                continue
+            try:
+                p = subprocess.run([self.path], input='\n'.join(chunk) + '\n', capture_output=True, text=True, timeout=left)
+            except subprocess.TimeoutExpired:
+                print(f'note: the model driver did not answer {len(lines) - k} of {len(lines)} requests within {limit:.0f}s; '
+                      f'those cases are judged by the oracle only')
+                out.extend([None] * (len(lines) - k))
+                break
+            o = p.stdout.split('\n')
+            if o and o[-1] == '':
+                o.pop()
+            if len(o) != len(chunk):
+                raise RuntimeError(f'driver answered {len(o)} lines for {len(chunk)} requests: {p.stderr[:500]}')
+            out.extend(o)
+        return out
         out = p.stdout.split('\n')
         if out and out[-1] == '':
             out.pop()
@@ -495,7 +519,8 @@ def _check(prop, tier, replay):
     answers = {}
     if lines:
         for i, ans in zip(idx, driver.ask(lines)):
-            answers[i] = ans
+            if ans is not None:
+                answers[i] = ans
 
     failures = []        # (kind, case, impl, why, model_answer)
     hist = collections.Counter()
